@@ -18,7 +18,7 @@
      S32 <start> <count> <stride>     sweep of count patterns start + i*stride (mod 2^32), in the current mode:
      S64 <start> <count> <stride>     encode(object(p)) must be p, decode(p) must be object(p)  (NaN: any NaN)
                              -> "S32 n=<count> nan=<k> emis=<k> dmis=<k> dmin=<d> dmax=<d> E <lo>-<hi>x<cnt> ... D <lo>-<hi>x<cnt> ..."
-                                (runs of consecutive failing patterns; dmin/dmax: range of est - floor(log2 |x|) over the finite non-zero x)
+                                (runs of consecutive failing patterns, at most 1024 listed; dmin/dmax: range of est - floor(log2 |x|) over the finite non-zero x)
 */
 #include "hcommon.h"
 #include <math.h>
